@@ -13,6 +13,7 @@ import Driver.Supervise
 import Driver.Timeout
 import Driver.SetupParams
 import Driver.Wiring
+import Driver.TransCheck
 /-!
 fbdriver: reads `<id>\t<input>\t<impl observation>` lines on stdin, runs the model of the chosen
 component on `<input>` and prints one verdict line per case:
@@ -71,6 +72,12 @@ partial def loop (h : IO.FS.Stream) (out : IO.FS.Stream) (f : String → String 
 
 def main (args : List String) : IO UInt32 := do
   match args with
+  | "transcheck" :: rest =>
+    -- counterexample search over the translated fragments (no stdin): fbdriver transcheck [seed [samples]]
+    let seed := (rest.head? >>= String.toNat?).getD 1
+    let n := (rest.tail.head? >>= String.toNat?).getD 3000
+    for l in TransCheck.runAll seed n do IO.println l
+    return 0
   | [comp] =>
     match dispatch comp with
     | some f =>
